@@ -290,7 +290,7 @@ ADDED = {
     "C11": "Later additions: read deadlines armed by the reader are made to expire whenever it has to wait for a segment; the collector runs with a TemplateTTL and the harness's clock, `fr tick` fires whatever a TCP collector scheduled (nothing may be).",
     "C12": "Later additions: messages past the reader's 4096-byte buffer, idle clients (6 s / 11 s), small MaxBufferSize on TCP/TLS collectors, tie_collector_arms_no_deadline, tie_template_elements_never_changed_in_place.",
     "C13": "Later additions: exclusive_lock_where_records_are_exposed, helpers_never_touch_the_mutex, clock_read_inside_critical_section, a ForAllRecordsDo callback that writes (`touch`) in the stress workloads.",
-    "C14": "Later additions: tie_refresh_reads_only_the_template_map, tie_probe_arms_read_deadline_only, tie_sequence_counter_advances_atomically; tie_every_close_call_waits; TCP sessions against a collector that reads late (a Write blocked across several connection probes).",
+    "C14": "Later additions: tie_refresh_reads_only_the_template_map, tie_probe_arms_read_deadline_only, tie_sequence_counter_advances_atomically; tie_every_close_call_waits; TCP sessions against a collector that reads late (a Write blocked across several connection probes). Last: tie_write_result_reported_as_is (the byte count and error of the connection's Write are what the sending functions report; nothing assigns them again - catches a send path that turns a socket error into a success, which no in-memory connection can exhibit).",
     "C15": "Later additions: records grown with AddInfoElement after their buffer was taken (`ie recbufx`), whole-record observations judged by Ipfix.C15.holdsRecBuf (model_holdsRecBuf); elements that live on (`ie mut`: typed setters, ResetValue); the decoder's input buffer is overwritten before the decoded values are read.",
     "C16": "Later additions: the record list taken out of a set before a reset must not change afterwards; refused prepares mid-sequence (re-run without them and compared); the harness reuses its element slice after the copying add calls.",
     "C17": "Later additions: same-id re-definitions with other lengths, collectors configured for UDP, a collector whose DecodingMode is unset (judged as strict), unknown ids that exist under a sibling enterprise only.",
